@@ -168,6 +168,18 @@ def run(ck):
     S.run_real(b, corp, 'c03c')
     for c in corp:
         record(ck, c, evaluate(ck, c, 'gen'), 'gen')
+    # deterministic family "control-flag leaks" (independent of the seed): loop kind x how an iteration ends x position x enclosing
+    # construct, statements after the loop in the same block; always in the stream
+    fam = S.flag_family()
+    S.run_models(nv3, nvl, fam)
+    S.run_real(b, fam, 'c03f')
+    ck.extra['control_flag_family'] = dict(programs=len(fam), constructs=sum(len(c.flag_labels) for c in fam),
+                                           loops=S.FLAG_LOOPS, ends=S.FLAG_ENDS, positions=S.FLAG_POS, enclosing=S.FLAG_ENCL)
+    for c in fam:
+        r = evaluate(ck, c, 'gen')
+        record(ck, c, r, 'gen')
+        if r['status'] != 'ok' or not c.m_apart:
+            ck.fail('c03:%s:family-not-run' % c.id, 'control-flag family program: status %s, names_apart %s' % (r['status'], c.m_apart), S.replay_dict(c), tie=True)
     # 2. main stream: nothing that triggers an open finding; the theorem's hypothesis holds
     cfg = S.stream_cfg(openk)
     n = 400 if ck.thorough else 36
